@@ -403,7 +403,11 @@ func parentMain(h *Harness) int {
 				"-out", out, "-deadline", fmt.Sprint(deadline.Unix()))
 			logf, _ := os.Create(filepath.Join(tmp, fmt.Sprintf("log-%d.txt", i)))
 			cmd.Stdout, cmd.Stderr = logf, logf
-			cmd.Env = append(os.Environ(), "GOMAXPROCS=2")
+			gmp := runtime.NumCPU() / n
+			if gmp < 2 {
+				gmp = 2
+			}
+			cmd.Env = append(os.Environ(), fmt.Sprintf("GOMAXPROCS=%d", gmp))
 			err := cmd.Run()
 			_ = logf.Close()
 			if err != nil {
